@@ -258,18 +258,24 @@ class ClientWorld:
         return self.run(self.eio._receive_packet,
                         eio_packet.Packet(eio_packet.MESSAGE, frame))
 
-    def deliver_packet(self, ptype, nsp=None, id=None, data=None):
+    def encode(self, ptype, nsp=None, id=None, data=None):
         from . import refcodec
         if self.serializer == 'msgpack':
             import msgpack
             d = {'type': ptype, 'data': data, 'nsp': nsp or '/'}
             if id is not None:
                 d['id'] = id
-            frames = [msgpack.dumps(d)]
-        else:
-            _, frame, atts = refcodec.ref_frame(ptype, nsp, id, data)
-            frames = [frame] + atts
-        return [self.deliver(f) for f in frames]
+            return [msgpack.dumps(d)]
+        _, frame, atts = refcodec.ref_frame(ptype, nsp, id, data)
+        return [frame] + atts
+
+    def deliver_packet(self, ptype, nsp=None, id=None, data=None):
+        return [self.deliver(f) for f in self.encode(ptype, nsp, id, data)]
+
+    def deliver_packet_raw(self, ptype, nsp=None, id=None, data=None):
+        """For use inside a wait hook (threaded client, sequential)."""
+        for f in self.encode(ptype, nsp, id, data):
+            self.deliver_raw(f)
 
     def lose(self):
         """Transport error: the real read-loop epilogue."""
@@ -309,7 +315,8 @@ class ClientWorld:
         return decode_stream(out, self.serializer)
 
     def take_log(self):
-        lg, self.log = self.log, []
+        lg = list(self.log)
+        del self.log[:]
         return lg
 
     def close(self):
